@@ -1,11 +1,23 @@
-(* C02 - Transition outcome: last surviving request wins, applied only when processed. Theorems only. Vocabulary: Ready cfg s a = the machine is at a point where requests are processed (or between API calls) with state a < n active, registry.requested = INVALID, the outstanding request (if any) names a state, the plan is well formed; Inv = the same without naming a. loop_rounds = the guard rounds the substitution loop executes (ghost-instrumented copy of the loop, proved equal to it: transitions_loop_g_erase), each with its pending transition, whether it was cancelled, and whether it was dropped by applyRequest's same-destination rule; last_survivor = the pending transition of the last round neither cancelled nor dropped; rounds_shape / guard_round describe the events of the rounds (exit guard of the active state, then - unless it cancelled - entry guard of the destination; every guard view shows that round's pending transition and the survivor so far); change a a' l = the lifecycle events exit(a);enter(a') | reenter(a) | ...; quiet a l = no enter/exit/reenter in l and every view shows a active. *)
+(* C02 - Transition outcome: last surviving request wins, applied only when processed. Theorems only. Vocabulary: Ready
+   cfg s a = the machine is at a point where requests are processed (or between API calls) with state a < n active,
+   registry.requested = INVALID, the outstanding request (if any) names a state, the plan is well formed; Inv = the
+   same without naming a. loop_rounds = the guard rounds the substitution loop executes (ghost-instrumented copy of the
+   loop, proved equal to it: transitions_loop_g_erase), each with its pending transition, whether it was cancelled, and
+   whether it was dropped by applyRequest's same-destination rule; last_survivor = the pending transition of the last
+   round neither cancelled nor dropped; rounds_shape / guard_round describe the events of the rounds (exit guard of the
+   active state, then - unless it cancelled - entry guard of the destination; every guard view shows that round's
+   pending transition and the survivor so far); change a a' l = the lifecycle events exit(a);enter(a') | reenter(a) |
+   ...; quiet a l = no enter/exit/reenter in l and every view shows a active. *)
 From Coq Require Import List Arith Bool NArith.
 From FFSM2 Require Import Model.TaskList Model.BitArray Model.BitStream Model.Plan Model.Ancestors Model.Machine
   Proofs.BitArrayProofs Proofs.MachineFrame Proofs.MachinePlan Proofs.MachineLife Proofs.GuardProofs Proofs.CycleProofs Proofs.PlanStep
-  Proofs.SerialProofs Proofs.LogProofs Proofs.MachineTop.
+  Proofs.SerialProofs Proofs.LogProofs Proofs.MachineTop Model.Multi Generated.InitFacts Proofs.ConstructProofs Proofs.LifeMonitor Proofs.ActivationRounds Proofs.IndexSafety Proofs.FeatureProofs.
 Import ListNotations.
 
-(* what one processing step does, for every reachable state, every callback behaviour, every n and limit: the active state afterwards is the destination of the last surviving round, reached by exit(old);enter(new) or reenter alone, each lifecycle callback seeing the surviving transition as current; if nothing survived, the active state is unchanged and only guard events were appended *)
+(* what one processing step does, for every reachable state, every callback behaviour, every n and limit: the active
+   state afterwards is the destination of the last surviving round, reached by exit(old);enter(new) or reenter alone,
+   each lifecycle callback seeing the surviving transition as current; if nothing survived, the active state is
+   unchanged and only guard events were appended *)
 Theorem C02_process_request :
   forall (P : Type) (cfg : config) (orc : oracle P),
          wf_cfg cfg ->
@@ -51,7 +63,8 @@ Theorem C02_request_is_lazy_api :
 Proof. exact (request_is_lazy). Qed.
 Print Assumptions C02_request_is_lazy_api.
 
-(* an action performed through a control changes neither the active state nor registry.requested; a permitted changeTo/changeWith overwrites the outstanding request with (caller, destination, payload) *)
+(* an action performed through a control changes neither the active state nor registry.requested; a permitted
+   changeTo/changeWith overwrites the outstanding request with (caller, destination, payload) *)
 Theorem C02_request_is_lazy_callback :
   forall (P : Type) (cfg : config),
          wf_cfg cfg ->
@@ -88,7 +101,8 @@ Theorem C02_later_request_replaces_earlier :
 Proof. exact (request_overwrites). Qed.
 Print Assumptions C02_later_request_replaces_earlier.
 
-(* update()/react(): the phase callbacks and the plan step apply no transition (quiet), then requests are processed exactly once *)
+(* update()/react(): the phase callbacks and the plan step apply no transition (quiet), then requests are processed
+   exactly once *)
 Theorem C02_update_processes_at_the_end :
   forall (P : Type) (cfg : config) (orc : oracle P),
          wf_cfg cfg ->
@@ -105,7 +119,21 @@ Theorem C02_update_processes_at_the_end :
 Proof. exact (cycle_processes_last). Qed.
 Print Assumptions C02_update_processes_at_the_end.
 
-(* the applied transition was the pending transition of a round that was neither cancelled nor dropped, and no later round survived *)
+(* the hypothesis Ready of the statements above holds in every state reached by an in-contract history (when the
+   machine is active) *)
+Theorem C02_every_reachable_state_is_ready :
+  forall (P : Type) (cfg : config) (orc : oracle P),
+         wf_cfg cfg ->
+         wf_oracle P cfg orc ->
+         forall (lg : bool) (ops : list (api_op P)),
+         ops_ok P cfg orc (construct P cfg orc lg) ops ->
+         let s := run P cfg orc lg ops in
+         Inv P cfg s /\ (active P (co P s) < c_n cfg -> Ready P cfg s (active P (co P s))).
+Proof. exact (reachable_ready). Qed.
+Print Assumptions C02_every_reachable_state_is_ready.
+
+(* the applied transition was the pending transition of a round that was neither cancelled nor dropped, and no later
+   round survived *)
 Theorem C02_survivor_is_a_round_that_passed :
   forall (P : Type) (cfg : config) (orc : oracle P) (s : mstate P),
          t_valid P (last_survivor P (loop_rounds P cfg orc (c_limit cfg) (t_empty P) s)) = true ->
